@@ -2,6 +2,7 @@ package checks
 
 import (
 	"fmt"
+	jd "github.com/josephburnett/jd/v2"
 	"strconv"
 	"strings"
 	"time"
@@ -183,7 +184,44 @@ func init() {
 	})
 }
 
+// hand-written set / multiset hunks over {1,2}: every removal list and addition list of up to two values (the same
+// value may stand on both sides), at the root and under a key, against every array of up to three values
+func enumC08HandWritten(e *engine.Emitter) {
+	seqs := [][]V{nil}
+	for _, x := range []V{1.0, 2.0} {
+		seqs = append(seqs, []V{x})
+		for _, y := range []V{1.0, 2.0} {
+			seqs = append(seqs, []V{x, y})
+		}
+	}
+	targets := gen.Arrays(3, []V{1.0, 2.0})
+	for _, pe := range []ref.PE{ref.SetPE(), ref.MsetPE()} {
+		for _, under := range []bool{false, true} {
+			for _, rem := range seqs {
+				for _, add := range seqs {
+					if len(rem)+len(add) == 0 {
+						continue
+					}
+					path := []ref.PE{pe}
+					if under {
+						path = []ref.PE{ref.K("a"), pe}
+					}
+					x := ref.EncodeHunks([]ref.Hunk{{Path: path, Remove: rem, Add: add}})
+					for _, t := range targets {
+						var tv V = t
+						if under {
+							tv = map[string]interface{}{"a": t}
+						}
+						e.Emit(engine.Case{Kind: "c08hw:" + map[string]string{"set": "SET", "multiset": "MULTISET"}[pe.Kind], Leg: "hand-written/" + pe.Kind, C: ref.JSON(tv), X: x})
+					}
+				}
+			}
+		}
+	}
+}
+
 func enumC08(tier string, e *engine.Emitter) {
+	enumC08HandWritten(e)
 	for _, o := range c08Opts {
 		kind := "c08:" + o
 		hk := engine.HS(kind)
@@ -238,8 +276,12 @@ func runC08(c *engine.Case) engine.Result {
 	res := engine.Result{}
 	var fail, bucket string
 	p := impl.Guard(func() {
-		d := impl.Read(c.A).Diff(impl.Read(c.B), o.Opts...)
-		sub := subDiff(d, mask)
+		var sub jd.Diff
+		if strings.HasPrefix(c.Kind, "c08hw:") {
+			sub = impl.Diff(ref.DecodeHunks(c.X))
+		} else {
+			sub = subDiff(impl.Read(c.A).Diff(impl.Read(c.B), o.Opts...), mask)
+		}
 		hs, err := impl.Hunks(sub)
 		res.Transitions++
 		if err != nil {
